@@ -49,13 +49,20 @@ def gen_stray(rnd, snap, cfg):
     op = {"op": "xreply", "stray": True, "skind": k, "svc": rnd.choice(svcs), "kind": verb, "text": text, "inst": "cur"}
     if k == "stale_live":
         op["cid"] = rnd.choice([c for c in snap["prev"] if c in snap["live"]])
-        op["inst"] = "prev"
+        op["inst"] = rnd.choice(["prev", "prev", "prev:1", "prev:2", "prev:3", "prev:6"])
+        aw = [s for (c, s) in snap["await"] if c == op["cid"]]
+        if aw and rnd.random() < 0.7:
+            op["svc"] = rnd.choice(aw)      # the newcomer is waiting for this very service
     elif k == "stale_free":
         op["cid"] = rnd.choice([c for c in snap["prev"] if c not in snap["live"]])
-        op["inst"] = "prev"
+        op["inst"] = rnd.choice(["prev", "prev:1", "prev:3"])
     elif k == "forged":
         op["cid"] = rnd.choice(snap["tagged"])
-        op["inst"] = "forged:" + rnd.choice(["nounderscore", "trail", "nonhex", "empty", "under2", "noserial", "serial+1"])
+        op["inst"] = "forged:" + rnd.choice(["nounderscore", "trail", "nonhex", "empty", "under2", "noserial", "serial+1",
+                                              "serial-trunc", "serial-trunc", "serial-extend", "id-extend"])
+        aw = [s for (c, s) in snap["await"] if c == op["cid"]]
+        if aw and rnd.random() < 0.7:
+            op["svc"] = rnd.choice(aw)
     elif k == "unknown_svc":
         op["cid"] = rnd.choice(snap["tagged"])
         op["svc"] = rnd.choice(["unknown.example.org", op["svc"] + "x", op["svc"].swapcase() if op["svc"].swapcase() != op["svc"] else "zz"])
@@ -132,7 +139,8 @@ class StrayProfile:
             fk = [f for f in proto.FAULT_KINDS if f not in ("cfg_torn", "cfg_garbage", "cfg_missing", "cfg_eio", "cfg_burst",
                                                              "cfg_same", "cfg_timeout", "extreme_ids") and rnd.random() < 0.5]
             o["faults"] = fk + ["cli_reannounce_live", "cli_disconnect"]
-        o["steps"] = rnd.choice([20, 40, 80, 150])
+        o["steps"] = rnd.choice([20, 40, 80, 150, 300])
+        o["clients"] = rnd.choice([4, 15, 40, 60])
         o["conc"] = rnd.choice([1, 2, 3])
         plan, ra = proto.run_generated(rnd, o, tag=tag + "G")
         ids = None
